@@ -33,7 +33,7 @@ FUNCTIONS = {p: ['Recipe.bake', 'Recipe.uses', 'Recipe.transfer', 'Recipe.create
 SERVES = {'resolve': ['C08', 'C07', 'C03', 'C17'], 'same-op': ['C08', 'C07', 'C03', 'C17'], 'store': ['C08', 'C07', 'C03', 'C17'], 'names': ['C08'],
           'snapshots': ['C09', 'C15'], 'objects-used': ['C09', 'C15'], 'used': ['C16', 'C08'],
           'substances-used': ['C09', 'C17'], 'trash': ['C09', 'C17', 'C15'], 'frame': ['C04'], 'no-effect-before-bake': ['C08'],
-          'safe': ['C08'], 'filed-under-own-name': ['C09', 'C15']}
+          'safe': ['C08'], 'filed-under-own-name': ['C09', 'C15'], 'steps-kept': ['C08', 'C09', 'C15', 'C16']}
 
 
 OBSERVABLE = ('name', 'contents', 'volume', 'max_volume', 'wells', 'experimental_conditions')
@@ -426,6 +426,15 @@ def judge(I, cx, exp, step, evs, known_before):
     r = st.obj
     foreign = [(str(w[0]), w[1], w[2]) for w in I.writes if w[0] is not st.obj and not str(w[0]).startswith('<RecipeStep')]
     I.oblige('frame', len(foreign) == 0, 'property', note=f"objects handed in by the user were written: {foreign[:4]}")
+    # ---- the baked recipe keeps its steps, all of them, in order: the stage windows (Recipe.stages: name -> slice of
+    # step positions) and the step-by-step trackers mean what they meant when the stages were closed
+    from pyvc.symcoll import SymListDerived
+    now = st.obj.fields.get('steps')
+    base = now
+    while isinstance(base, SymListDerived) and not base.filtered:
+        base = base.base
+    I.oblige('steps-kept', base is st.steps, 'property',
+             note='after bake, recipe.steps is no longer the list of all steps added (stage windows are positions in it)')
     # ---- the operation performed
     main = [e for e in evs if e.kind != 'construct' or exp['event'] == 'construct']
     if exp['event'].endswith('.fill_to') and len(main) == 2 and main[1].args[0] is main[0].outputs[0] \
